@@ -79,10 +79,11 @@ theorem c18_gen_setitem (o : Obj) (i : Int) (s : Segment) : SegmentList.setitem 
 
 /-! ### `to_root` -/
 
-/-- `to_root` = `toRootFuel` on the object's arrays (cache untouched) -/
+/-- `to_root` = `toRootFuel` on the object's arrays, then the cache is emptied
+    (`self.segments.instantiated_segments.clear()`, reached only when nothing raised) -/
 theorem c18_gen_to_root (fuel : Nat) (o : Obj) (j : Int) :
     to_root fuel o j = (match toRootFuel fuel o.arr j with
-      | .ok a => .ok ((), { o with arr := a })
+      | .ok a => .ok ((), { arr := a, cache := [] })
       | .error e => .error e) := by
   unfold to_root toRootFuel
   rw [c18_gen_root_index]
@@ -119,6 +120,18 @@ theorem c18_gen_to_root (fuel : Nat) (o : Obj) (j : Int) :
             cases setI c j (-1) with
             | error e => rfl
             | ok c2 => rfl
+
+/-- … with the model's fuel: the generated `to_root` IS the hand model's `to_root` on the object (`toRootObj`, the
+    call `step` executes for `Op.toRoot`) -/
+theorem c18_gen_to_root_obj (o : Obj) (j : Int) :
+    to_root (o.arr.conn.length + 1) o j = (match toRootObj o j with
+      | (.ok _, o') => .ok ((), o')
+      | (.error e, _) => .error e) := by
+  rw [c18_gen_to_root]
+  unfold toRootObj toRoot
+  cases toRootFuel (o.arr.conn.length + 1) o.arr j with
+  | error e => rfl
+  | ok a => rfl
 
 /-! ### `to_neuroml_morphology` -/
 
